@@ -227,20 +227,24 @@ theorem MapRel.union {pl sl pr sr : List (κ × ν)} (hl : MapRel pl sl) (hr : M
   rw [get_imblUnion pl pr hl.1, tryGet_union, hl.2.2, hr.2.2]
   cases mTryGet sl k <;> rfl
 
+/-- both undefined, or both defined and related -/
+def OptRel {α β : Type} (R : α → β → Prop) : Option α → Option β → Prop
+  | some a, some b => R a b
+  | none, none => True
+  | _, _ => False
+
 /-- `(hash k v …)`: a key without a value is an error on both sides; otherwise the same finite map -/
 theorem construct_rel : ∀ (ks : List κ) (vs : List ν) (p s : List (κ × ν)), MapRel p s →
-    match Prim.hmConstruct p ks vs, mkPairs ks vs with
-    | some p', some kvs => MapRel p' (kvs.foldl (fun m e => mInsert m e.1 e.2) s)
-    | none, none => True
-    | _, _ => False
-  | [], [], p, s, h => by simpa [Prim.hmConstruct, mkPairs] using h
-  | [], _ :: _, p, s, h => by simp [Prim.hmConstruct, mkPairs]
-  | _ :: _, [], p, s, h => by simp [Prim.hmConstruct, mkPairs]
+    OptRel (fun p' kvs => MapRel p' (kvs.foldl (fun m e => mInsert m e.1 e.2) s))
+      (Prim.hmConstruct p ks vs) (mkPairs ks vs)
+  | [], [], p, s, h => by simpa [Prim.hmConstruct, mkPairs, OptRel] using h
+  | [], _ :: _, p, s, h => by simp [Prim.hmConstruct, mkPairs, OptRel]
+  | _ :: _, [], p, s, h => by simp [Prim.hmConstruct, mkPairs, OptRel]
   | k :: ks, v :: vs, p, s, h => by
       have := construct_rel ks vs _ _ (h.insert k v)
       simp only [Prim.hmConstruct, mkPairs]
       cases h1 : Prim.hmConstruct (Prim.hmInsert p k v) ks vs <;> cases h2 : mkPairs ks vs <;>
-        simp only [h1, h2, Option.map_some, Option.map_none, List.foldl_cons] at this ⊢ <;> exact this
+        simp only [h1, h2, Option.map_some, Option.map_none, List.foldl_cons, OptRel] at this ⊢ <;> exact this
 
 /-! ## finite sets -/
 
